@@ -39,13 +39,13 @@ class EnumMember:
 
 PURE_STR_METHODS = {
     "isascii", "isdigit", "isalpha", "isalnum", "isspace", "isupper", "islower",
-    "lower", "upper", "startswith", "endswith", "strip", "lstrip", "rstrip",
+    "lower", "upper", "startswith", "endswith", "strip", "lstrip", "rstrip", "removesuffix", "removeprefix",
 }  # fmt: skip
 class Rec(dict):
     """A record with attribute access, used to fold predicates over small abstract objects."""
 
 
-PURE_BUILTINS = {"len": len, "ord": ord, "chr": chr, "min": min, "max": max, "all": all, "any": any,
+PURE_BUILTINS = {"len": len, "abs": abs, "ord": ord, "chr": chr, "min": min, "max": max, "all": all, "any": any,
                  "frozenset": frozenset, "set": set, "tuple": tuple, "list": list,
                  "dict": dict, "str": str, "int": int, "bool": bool, "sorted": sorted,
                  "range": range, "enumerate": enumerate, "zip": zip, "isinstance": None}  # fmt: skip
@@ -328,7 +328,7 @@ class Evaluator:
             raise NotStatic(f"method {f.attr}")
         if isinstance(f, ast.Name):
             if f.id in self.env and callable(self.env[f.id]):
-                return self.env[f.id](*self._elts(e.args))
+                return self.env[f.id](*self._elts(e.args), **{k.arg: self.eval(k.value) for k in e.keywords if k.arg})
             if f.id in PURE_BUILTINS and PURE_BUILTINS[f.id] is not None and f.id not in self.env:
                 try:
                     r = resolve_name(self.repo, self.mod, f.id)
